@@ -155,6 +155,12 @@ def float_enum_derived(ctx):
               'trigger_setter does not announce the float parameter', ts)
 
 
+def _deactivations(fi):
+    """calls of a deactivation callback: a local taken out of self.inputCallbacks (loop over .values(), .get(...))"""
+    return [c for c in calls_in(fi.node) if isinstance(c.func, ast.Name) and
+            any(v is not None and 'inputCallbacks' in src(v) for v, st, how in local_assigns(fi.node, c.func.id))]
+
+
 @rule('C18.R4', min_instances=3)
 def handover_pairing(ctx):
     """stores of controlled_by are paired with the deactivate callbacks; inputs register at their output"""
@@ -168,7 +174,7 @@ def handover_pairing(ctx):
             continue
         n += 1
         ctx.analysed(fi)
-        deact = [c for c in calls_in(fi.node) if (isinstance(c.func, ast.Name) and 'deactivate' in c.func.id)]
+        deact = _deactivations(fi)
         loop = any(isinstance(a, ast.For) and 'inputCallbacks' in src(a.iter) for c in deact for a in ancestors(c))
         ctx.check(bool(deact) and loop, f'{fi.qualname}:store controlled_by paired with deactivation', st[0][2],
                   'the other inputs are deactivated in the same function',
@@ -350,7 +356,7 @@ def hand_over_switches_both_sides(ctx):
             neg = src(t.ast).startswith('not ')
             side = cfgs.reach([t.id], labels={'F' if neg else 'T'}, avoid=[t.id])
             st = {i for tg, v, s in attr_stores(sc.node) if tg.attr == 'controlled_by' and isinstance(v, ast.Constant) and v.value == 0 for i in cfgs.node_of(s)}
-            de = {i for c in calls_in(sc.node) if isinstance(c.func, ast.Name) and 'deactivate' in c.func.id for i in cfgs.node_of(c)}
+            de = {i for c in _deactivations(sc) for i in cfgs.node_of(c)}
             ctx.check(bool(st) and st <= side and bool(de) and de <= side, f'{sc.qualname}:controllers are switched off when the output takes over', t.ast,
                       'controlled_by = 0 and the deactivation loop on the controlled side',
                       f'`{src(t.ast)}`: a write to the output does not switch the controlling input off (or only when nobody is controlling)', sc)
